@@ -129,3 +129,6 @@ Definition l17_run_Z (q N : Z) (inp : inputs) (m x rx : Z) (odd over : bool)
   let xoverf := fun _ : Z => over in
   let highf := fun s : Z => (fopp Kq s <? s)%Z in
   (sign q N xcf yoddf xoverf highf inp m x, k, c3_int q xcf inp m).
+
+Definition l17_inputs_Z (k1 k2 : Z) (x1 lam : list Z) (x2 zeta2 rho : Z) : inputs :=
+  mk_inputs k1 k2 x1 lam x2 zeta2 rho.
